@@ -91,16 +91,31 @@ func (t *zzT) lock(k string) error {
 }
 
 func (t *zzT) set(k string, v []byte, insert bool) error {
+	if insert {
+		// declared before the key is locked: a pessimistic lock request then carries the existence check
+		t.txn.GetMemBuffer().UpdateFlags([]byte(k), kv.SetPresumeKeyNotExists)
+	}
 	if t.pessimistic {
 		if err := t.lock(k); err != nil {
 			return err
 		}
 	}
 	t.writes = append(t.writes, zzWriteOp{key: k, val: v, insert: insert})
-	if insert {
-		t.txn.GetMemBuffer().UpdateFlags([]byte(k), kv.SetPresumeKeyNotExists)
-	}
 	return t.txn.Set([]byte(k), v)
+}
+
+// writeBegin: from when on the transaction excludes other writers of k - its start ts, or, for a
+// pessimistic transaction, the for-update ts at which it locked the key (the conflict check of a
+// pessimistic lock is made against that timestamp, not against the start ts).
+func (t *zzT) writeBegin(k string) uint64 {
+	if t.pessimistic {
+		for _, r := range t.reads {
+			if r.locking && r.key == k {
+				return r.ts
+			}
+		}
+	}
+	return t.startTS
 }
 
 func (t *zzT) del(k string) error {
@@ -169,6 +184,10 @@ func (t *zzT) body(g *zzSched, mode int) {
 	t.s.wg.Wait()
 }
 
+// stores: the write puts a record into the store (an optimistic insert that is deleted again only
+// sends an existence check).
+func (t *zzT) stores(w *zzWriteOp) bool { return !(w.insert && w.val == nil && !t.pessimistic) }
+
 func (t *zzT) committed() bool { return t.tried && t.err == nil }
 
 func (t *zzT) writesKey(k string) *zzWriteOp {
@@ -194,7 +213,10 @@ func zzC01(mode int, pessimistic bool) {
 	cl.faithful = true
 	cl.onePCAllowed = true
 	cl.noForeignResolver = true
-	g := &zzSched{}
+	g := &zzSched{maxPreempt: zzParam("preempt", 2)}
+	if pessimistic {
+		g.maxPreempt = zzParam("preempt_p", 1) // twice as many requests per transaction
+	}
 	cl.sched = g
 	s.orc.sched = g
 	// initial data: "a" may already exist
@@ -245,9 +267,15 @@ func zzC01(mode int, pessimistic bool) {
 			rec := cl.key([]byte(w.key)).record(t.startTS)
 			stored := rec != nil && rec.commitTS != 0
 			if t.committed() {
-				if w.insert && w.val == nil {
-					// insert + delete in one transaction: only the existence check is sent, nothing is written
+				if w.insert && w.val == nil && !t.pessimistic {
+					// insert + delete in one optimistic transaction: only the existence check is sent, nothing is written
 					zzAssert(!stored, "c01.insert-then-delete-writes-nothing")
+					continue
+				}
+				if w.insert && w.val == nil {
+					// pessimistic: the key is locked, the delete (or the bare lock) is committed
+					zzAssert(stored && rec.commitTS == t.txn.commitTS && (rec.op == kvrpcpb.Op_Del || rec.op == kvrpcpb.Op_Lock) && len(rec.value) == 0,
+						"c01.pessimistic-insert-then-delete-leaves-no-value")
 					continue
 				}
 				zzAssert(stored && rec.commitTS == t.txn.commitTS, "c01.committed-write-is-in-the-store-at-the-commit-ts")
@@ -296,13 +324,10 @@ func zzC01(mode int, pessimistic bool) {
 	a, b := ts[0], ts[1]
 	if a.committed() && b.committed() {
 		for _, w := range a.writes {
-			if (w.insert && w.val == nil) || b.writesKey(w.key) == nil {
+			if !a.stores(&w) || b.writesKey(w.key) == nil || !b.stores(b.writesKey(w.key)) {
 				continue
 			}
-			if ob := b.writesKey(w.key); ob.insert && ob.val == nil {
-				continue
-			}
-			disjoint := a.txn.commitTS < b.startTS || b.txn.commitTS < a.startTS
+			disjoint := a.txn.commitTS < b.writeBegin(w.key) || b.txn.commitTS < a.writeBegin(w.key)
 			zzAssert(disjoint, "c01.overlapping-committed-transactions-wrote-no-common-key")
 		}
 	}
@@ -316,7 +341,7 @@ func zzC01(mode int, pessimistic bool) {
 			if !r.locking || o.writesKey(r.key) == nil {
 				continue
 			}
-			if ow := o.writesKey(r.key); ow.insert && ow.val == nil {
+			if !o.stores(o.writesKey(r.key)) {
 				continue
 			}
 			end := t.startTS
@@ -334,9 +359,27 @@ func zzC01(mode int, pessimistic bool) {
 				continue
 			}
 			if t.committed() {
+				if w.val == nil {
+					// insert + delete: only an existence check (Op_CheckNotExists) is sent at prewrite
+					if visible(w.key, t.startTS, t.id) == nil {
+						zzNote("absent_at_start_ts", "true")
+					}
+					zzAssert(visible(w.key, t.txn.commitTS, t.id) == nil, "c01.insert-deleted-again-commits-only-on-an-absent-key")
+					continue
+				}
 				zzAssert(visible(w.key, t.txn.commitTS, t.id) == nil, "c01.insert-commits-only-on-an-absent-key")
-			} else if _, had := initial[w.key]; had && !ts[1-t.id].committed() {
+			} else if _, had := initial[w.key]; had && len(ts[1-t.id].writes) == 0 {
 				// the key existed all the time and nobody else changed anything: the failure is key-exists
+				if !(t.err != nil && tikverr.IsErrKeyExist(t.err)) {
+					if t.err != nil {
+						zzNote("err", t.err.Error())
+					}
+					desc := ""
+					for _, r := range cl.log {
+						desc += string(rune('0'+r.client)) + ":" + r.cmd.String() + ","
+					}
+					zzNote("rpcs", desc)
+				}
 				zzAssert(t.err != nil && tikverr.IsErrKeyExist(t.err), "c01.insert-on-an-existing-key-fails-with-key-exists")
 			}
 		}
